@@ -42,6 +42,7 @@ int simfd_nonblocking(int task, int fd);
 size_t simfd_conn_txlog(int cid, int role, const unsigned char **p);
 extern uint64_t simfd_progress;
 extern int simfd_hard_error_t[], simfd_eagain_t[];
+extern long simfd_last_read_t[];       /* per task: how its most recent read() on a simulated descriptor ended (>0 data, 0 EOF, <0 -errno) */
 #define simfd_eagain (simfd_eagain_t[task_current()])
 #define simfd_hard_error (simfd_hard_error_t[task_current()])
 int simfs_is_fd(int fd);
